@@ -49,6 +49,10 @@ def accumulative(ctx, dn, until):
 
 
 def run(ctx, dn):
+    if ctx.shard == 0:
+        # PASSIVE: every graph the repository's own tests build is audited with the query battery
+        from .. import passive
+        ctx.notes["passive_graphs"] = passive.run(ctx, dn, battery)
     if ctx.tier == "quick":
         _hist.exhaustive(ctx, dn, battery, 1, two_pairs_len=2, tmax=3, spans=(None, 2))
         _hist.second_life(ctx, dn, battery, 2)
